@@ -480,6 +480,35 @@ def eval_transpose(r, rows, cols):
     r.sample = dict(kind="transpose", shape=[s0, s1])
     if got != want:
         r.violate(f"transpose|{rows}|{cols}", dict(kind="transpose", rows=rows, cols=cols), f"transpose_tuple of a {s0}x{s1} constant gives {got[:8]}..., expected {want[:8]}...")
+        return
+    # the rewrite pattern itself on a transposing linalg.generic over a constant tensor (applied the way preprocess-mlir applies it)
+    from xdsl.pattern_rewriter import PatternRewriteWalker
+
+    rows_txt = "[" + ", ".join("[" + ", ".join(str(arr[y * s1 + x]) for x in range(s1)) + "]" for y in range(s0)) + "]"
+    for el in ("i32", "i8"):
+        text = (
+            f"builtin.module {{\nfunc.func @f() -> tensor<{s1}x{s0}x{el}> {{\n  %k = arith.constant dense<{rows_txt}> : tensor<{s0}x{s1}x{el}>\n  %e = tensor.empty() : tensor<{s1}x{s0}x{el}>\n"
+            f'  %t = linalg.generic {{indexing_maps = [affine_map<(d0, d1) -> (d1, d0)>, affine_map<(d0, d1) -> (d0, d1)>], iterator_types = ["parallel", "parallel"]}} '
+            f"ins(%k : tensor<{s0}x{s1}x{el}>) outs(%e : tensor<{s1}x{s0}x{el}>) {{\n  ^bb0(%a : {el}, %b : {el}):\n    linalg.yield %a : {el}\n  }} -> tensor<{s1}x{s0}x{el}>\n"
+            f"  func.return %t : tensor<{s1}x{s0}x{el}>\n}}\n}}\n"
+        )
+        mod = common.parse(text)
+        mod.verify()
+        try:
+            PatternRewriteWalker(RemoveTransposeConstants(), apply_recursively=False).rewrite_module(mod)
+            mod.verify()
+        except Exception as e:
+            r.count("transpose_pattern_rejected:" + type(e).__name__)
+            continue
+        ret = next(op for op in mod.walk() if op.name == "func.return")
+        src = ret.operands[0].owner
+        r.transitions += 1
+        if src.name != "arith.constant":
+            r.count("transpose_not_folded")
+            continue
+        data = list(src.value.get_values())
+        if data != want or str(src.results[0].type) != f"tensor<{s1}x{s0}x{el}>":
+            r.violate(f"transpose|{rows}|{cols}|{el}|pattern", dict(kind="transpose", rows=rows, cols=cols), f"RemoveTransposeConstants folds the transpose of a {s0}x{s1} constant to {data[:8]}... : {src.results[0].type}, expected {want[:8]}...")
 
 
 def space(tier):
